@@ -11,6 +11,17 @@ def main():
         write_if_changed(os.path.join(LEAN, "Claripy", "Gen", "GcGuard.lean"), tg.render(tg.translate()))
     except tg.TranslateError as e:
         print("translate_gcguard refused:", e)
+    # solver family: __mro__ of the classes in solvers.py, __getstate__/__setstate__ plans
+    try:
+        import translate_solver as tsol
+        write_if_changed(os.path.join(LEAN, "Claripy", "Gen", "SolverMro.lean"), tsol.render(tsol.translate()))
+    except Exception as e:  # noqa: BLE001
+        print("translate_solver refused:", e)
+    try:
+        import translate_pickle as tpk
+        write_if_changed(os.path.join(LEAN, "Claripy", "Gen", "SolverPickle.lean"), tpk.render(tpk.translate()))
+    except Exception as e:  # noqa: BLE001
+        print("translate_pickle refused:", e)
 
 
 if __name__ == "__main__":
